@@ -605,13 +605,14 @@ theorem runWith_perChunk (P : Parser E) (chunks : List Bytes) : ∀ s : BSt,
     rw [this]
     rfl
 
-/-- the texts a stateful decoder hands to `processData`, read by read -/
-def decTexts : DecSt → List Bytes → List (List Char)
-  | _, [] => []
-  | d, c :: cs => toChars (Dec.feed d c).2 :: decTexts (Dec.feed d c).1 cs
+/-- the texts the stateful decoder hands to `processData`, read by read -/
+def decTexts : Bool → DecSt → List Bytes → List (List Char)
+  | _, _, [] => []
+  | done, d, c :: cs =>
+    toChars (bomStep done (Dec.feed d c).2).2 :: decTexts (bomStep done (Dec.feed d c).2).1 (Dec.feed d c).1 cs
 
 theorem runWith_stateful (P : Parser E) (chunks : List Bytes) : ∀ s : BSt,
-    (runWith (feedBytesStateful P) s chunks).2 = (run P s.st (decTexts s.dec chunks)).2 := by
+    (runWith (feedBytesStateful P) s chunks).2 = (run P s.st (decTexts s.hdrDone s.dec chunks)).2 := by
   induction chunks with
   | nil => intro s; rfl
   | cons c cs ih =>
@@ -622,21 +623,38 @@ theorem runWith_stateful (P : Parser E) (chunks : List Bytes) : ∀ s : BSt,
     rw [this]
     rfl
 
-theorem decTexts_flatten (chunks : List Bytes) : ∀ d : DecSt,
-    (decTexts d chunks).flatten = toChars (Dec.feedAll d chunks).2 := by
+theorem dropBom1_append (a b : List Nat) (h : a ≠ []) : dropBom1 (a ++ b) = dropBom1 a ++ b := by
+  cases a with
+  | nil => exact absurd rfl h
+  | cons x a => simp only [List.cons_append, dropBom1]; split <;> simp
+
+/-- all reads together: the decoder output with a U+FEFF dropped iff it is the very first character -/
+theorem decTexts_flatten (chunks : List Bytes) : ∀ (done : Bool) (d : DecSt),
+    (decTexts done d chunks).flatten =
+      toChars (if done then (Dec.feedAll d chunks).2 else dropBom1 (Dec.feedAll d chunks).2) := by
   induction chunks with
-  | nil => intro d; rfl
+  | nil => intro done d; cases done <;> rfl
   | cons c cs ih =>
-    intro d
-    simp only [decTexts, List.flatten_cons, Dec.feedAll, toChars_append, ih]
+    intro done d
+    simp only [decTexts, List.flatten_cons, Dec.feedAll, ih]
+    cases done with
+    | true => simp [bomStep, toChars_append]
+    | false =>
+      cases ho : (Dec.feed d c).2 with
+      | nil => simp [bomStep, toChars]
+      | cons x o =>
+        simp only [bomStep, Bool.false_eq_true, if_false, if_true]
+        rw [dropBom1_append (x :: o) _ (by simp), ← toChars_append]
+        rfl
 
 /-- for well-formed UTF-8 the stateful decoder has delivered every character when the input ends -/
 theorem decTexts_flatten_valid (chunks : List Bytes) (cps : List Nat)
-    (h : decode? chunks.flatten = some cps) : (decTexts Dec.init chunks).flatten = toChars cps := by
+    (h : decode? chunks.flatten = some cps) :
+    (decTexts false Dec.init chunks).flatten = toChars (dropBom1 cps) := by
   rw [decTexts_flatten]
   have h1 := (feedAll_eq chunks Dec.init (by simp [Dec.init, Dec.run])).1
   simp only [Dec.init, List.nil_append] at h1
-  simp only [Dec.init]
+  simp only [Dec.init, Bool.false_eq_true, if_false]
   rw [h1, valid_run chunks.flatten 0 cps h]
 
 theorem perChunk_texts_flatten (chunks : List Bytes) :
